@@ -259,6 +259,9 @@ func (s *Server) processMsgNextHop(
 				return nil, netip.AddrPort{}, nil
 			}
 			s.outBuffer.PushLayer(s.e2e.LayerType())
+			// The extension header sits between the SCION header and the SCMP
+			// header: the SCION header must announce it.
+			s.scionLayer.NextHdr = slayers.End2EndClass
 		}
 		err = s.scionLayer.SerializeTo(s.outBuffer, s.options)
 		if err != nil {
@@ -323,6 +326,9 @@ func (s *Server) reverseSCION() error {
 	if s.scionLayer.Path, err = s.scionLayer.Path.Reverse(); err != nil {
 		return serrors.Wrap("reversing path", err)
 	}
+	// Reversing may change the type of the path (a one-hop path is reversed
+	// into a regular SCION path); the header must name the type it carries.
+	s.scionLayer.PathType = s.scionLayer.Path.Type()
 	return nil
 }
 
